@@ -3,6 +3,9 @@ EXTENDS Span
 MC_Store1 == <<1>>
 MC_Kind1 == <<"new">>
 MC_None == {}
+MC_FormsNoRng == {"norng"}
+MC_ExNone == {FALSE}
+MC_ExBoth == {FALSE, TRUE}
 MC_Forms == {"value", "ref", "option", "box", "arc", "dyn", "ambient"}
 
 ASSUME PrintT(<<"FORMS", ToJson(CtxForms)>>)
